@@ -523,7 +523,7 @@ def block_cases(rng, count):
 def run(tier, seed):
     rng = random.Random(seed)
     STATS.clear()
-    per = 6 if tier == "quick" else 60
+    per = 10 if tier == "quick" else 80
     parts = []
     parts.append(("directed witnesses (D7 pentagon, unit squares)", hv.campaign(directed_cases(), oracle_c13, max_report=50)))
     parts.append(("polygons: convex / star / reflex at every index / random simple, isolated and embedded",
